@@ -39,7 +39,9 @@ def run_seed(seed_dir, checks):
 
 
 def main():
-    roots = sys.argv[1:] or [os.path.join(HERE, "seeded")]
+    record = "--record" in sys.argv
+    args = [a for a in sys.argv[1:] if a != "--record"]
+    roots = args or [os.path.join(HERE, "seeded")]
     seeds = []
     for root in roots:
         for dp, dn, fn in os.walk(root):
@@ -57,6 +59,11 @@ def main():
             continue
         hits = [pid for pid, (rc, _) in res.items() if rc == 1]
         errs = [pid for pid, (rc, _) in res.items() if rc == 2]
+        if record and os.path.exists(os.path.join(seed, "meta.json")):
+            meta = json.load(open(os.path.join(seed, "meta.json")))
+            meta["detected_by"] = hits
+            meta["first_report"] = {pid: (res[pid][1][0][:300] if res[pid][1] else "") for pid in hits}
+            json.dump(meta, open(os.path.join(seed, "meta.json"), "w"), indent=1)
         own = os.path.basename(os.path.dirname(seed)) if os.path.basename(seed) in ("a", "b") else os.path.basename(seed).split("-")[0]
         tag = "CAUGHT" if hits else "missed"
         if hits:
